@@ -300,6 +300,8 @@ func (rs *rowStore) processInserts(offsetsBySource common.OffsetsBySource, stop 
 				rs.t.updateHighWaterMarkMemory(insert.vals.TimeInt())
 			}
 			for _, more := range insert.more {
+				verifEvent("ms.recv", rs.t.Name, more.offset, more.key != nil)
+				verifEvent("ms.apply", rs.t.Name, more.key != nil, more.source)
 				ms.tree.Update(more.key, nil, more.vals, more.metadata)
 			}
 			rs.mx.Unlock()
